@@ -1151,6 +1151,7 @@ package fosite
 //@   requires f != nil && r != nil && f.Store != nil && (forall c2 context.Context :: f.Config.GetSecretsHasher(c2) != nil)
 //@   modifies everything
 //@   ensures [C10.par-client-is-authenticated-client] err == nil ==> result != nil && result.GetClient() != nil && result.GetClient().GetID() == cast(authn[r], Client).GetID()
+//@   ensures [C17.push-client-is-authenticated-client] err == nil ==> result != nil && result.GetClient() != nil && result.GetClient().GetID() == cast(authn[r], Client).GetID()
 
 // The concrete request / response types satisfy the interface contracts used above (checked with getter bridging).
 //@ func (*AuthorizeRequest).SetDefaultResponseMode
